@@ -11,6 +11,9 @@
                           block, a release exactly the release record (private, public, start);
                           no other call writes a record; record timestamps lie inside the call
    clause 9  malformed trace (operation / result kinds do not match)
+   A failed call (AllocateNAT / DeallocateNAT returning an error) must write no record and leaves
+   the table as it was: nothing may be reported afterwards for a subscriber whose allocation
+   failed, a later success is a new assignment (needs its record), a refused release keeps the block.
    ConcObs (snapshot after a concurrent run) evaluates clauses 0-4 on the final table; with
    [co_strict] (single caller, concurrent flusher) also exactly-one-record-per-event. *)
 From Coq Require Import ZArith NArith List Bool.
@@ -157,7 +160,11 @@ Definition conc_clause (s : sstate) (o : concobs) : option N :=
         end
   end.
 
-Definition accept (s : sstate) (o : op) (r : out) : sstate + N :=
+(* the monitor does not see the fault oracles: a call is judged by its kind and its result *)
+Definition plain (o : op) : op :=
+  match o with AllocF p _ _ => Alloc p | DeallocF p _ _ => Dealloc p | o' => o' end.
+
+Definition accept0 (s : sstate) (o : op) (r : out) : sstate + N :=
   if negb (o_ts r) then inr 4%N else
   match o, o_res r with
   | AddIP _, (RNone | RErr _) => if no_recs (o_logs r) then inl s else inr 4%N
@@ -180,6 +187,7 @@ Definition accept (s : sstate) (o : op) (r : out) : sstate + N :=
                   then inl (with_tab s (remove_blk (b_priv b) (b_pub b) (b_start b) (ss_tab s))) else inr 4%N
       | None => if no_recs (o_logs r) then inl s else inr 4%N
       end
+  | Dealloc _, RErr _ => if no_recs (o_logs r) then inl s else inr 4%N   (* refused: the block stays held *)
   | Get priv, RGet g =>
       match find_blk priv (ss_tab s), g with
       | None, None => if no_recs (o_logs r) then inl s else inr 4%N
@@ -191,43 +199,4 @@ Definition accept (s : sstate) (o : op) (r : out) : sstate + N :=
   | _, _ => inr 9%N
   end.
 
-(* ---- monitor for the Manager with a real subscriber_nat kernel map ----
-   clauses 0-4 as above on the Manager calls (a failed AllocateNAT is an RErr: it must write no
-   record; nothing may be reported for that private IP afterwards; a later success is a new
-   assignment and must write exactly its assign record), plus
-   clause 3 on stats: GetAllocationCount = number of holders
-   clause 5  kernel map : subscriber_nat holds exactly one entry per holder, carrying its block
-                          (public IP, start, end, next = start, subscriber id), and nothing else
-                          except the keys the harness put there itself *)
-Record ksstate := { ks_ss : sstate; ks_foreign : list Z }.
-Definition ksinit (c : cfg) (m : logmode) : ksstate := {| ks_ss := sinit c m; ks_foreign := [] |}.
-
-Definition kentry_is (b : blk) (e : kentry) : bool :=
-  (ke_key e =? b_priv b) && (ke_pub e =? b_pub b) && (ke_start e =? b_start b) && (ke_end e =? b_end b) &&
-  (ke_next e =? b_start b) && ke_rest0 e.
-
-Definition kmap_ok (tab : list blk) (foreign : list Z) (l : list kentry) : bool :=
-  forallb (fun b => existsb (kentry_is b) l) tab &&
-  forallb (fun e => existsb (fun b => b_priv b =? ke_key e) tab || existsb (Z.eqb (ke_key e)) foreign) l &&
-  Nat.eqb (length (filter (fun e => existsb (fun b => b_priv b =? ke_key e) tab) l)) (length tab).
-
-Definition kaccept (s : ksstate) (o : kop) (r : kout) : ksstate + N :=
-  match o, r with
-  | KO o', KOut r' =>
-      match accept (ks_ss s) o' r' with
-      | inr c => inr c
-      | inl ss' =>
-          match o', o_res r' with
-          | Stats, RStats cnt _ => if cnt =? Z.of_nat (length (ss_tab ss')) then inl {| ks_ss := ss'; ks_foreign := ks_foreign s |} else inr 3%N
-          | _, _ => inl {| ks_ss := ss'; ks_foreign := ks_foreign s |}
-          end
-      end
-  | KPut k, KOut r' =>
-      match o_res r' with
-      | RNone => inl {| ks_ss := ks_ss s; ks_foreign := k :: ks_foreign s |}
-      | _ => inl s
-      end
-  | KDel k, KOut _ => inl {| ks_ss := ks_ss s; ks_foreign := filter (fun x => negb (x =? k)) (ks_foreign s) |}
-  | KDump, KMap l => if kmap_ok (ss_tab (ks_ss s)) (ks_foreign s) l then inl s else inr 5%N
-  | _, _ => inr 9%N
-  end.
+Definition accept (s : sstate) (o : op) (r : out) : sstate + N := accept0 s (plain o) r.
